@@ -144,8 +144,8 @@ fn metric(
     fam: &str,
     expect: Option<(i64, i64)>,
 ) -> Option<Value> {
-    if ty == 2 {
-        metric_nd(run, name, a, b, scores, b1, b2, fam)
+    if ty >= 2 {
+        metric_nd(run, if ty == 2 { "nd64" } else { "na64" }, name, a, b, scores, b1, b2, fam)
     } else if ty == 0 {
         metric_event::<f64>(run, name, "f64", a, b, scores, b1, b2, u, e, off, fam, expect)
     } else {
@@ -165,6 +165,7 @@ fn next_up(v: f64, ty: usize, steps: i64) -> f64 {
 /// AUC scores of the order-only families, from small non-negative integers k:
 ///   "scaled":    k * 2^e                       (exact power-of-two rescaling)
 ///   "nextafter": 2^e advanced by k ulps        (neighbouring floats of the fed type)
+///   "extreme":   k, with the extreme keys replaced by +-T::MAX / +-infinity (order kept)
 ///   otherwise:   k
 /// AUC depends on the order of the scores only; the event records their dense ranks.
 fn family_scores(fam: &str, e: i32, ty: usize, ks: &[i64]) -> Vec<f64> {
@@ -172,6 +173,28 @@ fn family_scores(fam: &str, e: i32, ty: usize, ks: &[i64]) -> Vec<f64> {
         .map(|&k| match fam {
             "scaled" => k as f64 * 2f64.powi(e),
             "nextafter" => next_up(2f64.powi(e), ty, k),
+            "extreme" => {
+                // the largest / smallest key becomes the top / bottom of the number line of the
+                // fed type: e = 0: +-MAX, e = 1: +-infinity, e = 2: +infinity above MAX (the
+                // second largest key) and -infinity below -MAX
+                let max = if ty == 1 { f32::MAX as f64 } else { f64::MAX };
+                let mut d: Vec<i64> = ks.to_vec();
+                d.sort_unstable();
+                d.dedup();
+                let (lo, hi) = (d[0], d[d.len() - 1]);
+                let (lo2, hi2) = if d.len() >= 4 { (d[1], d[d.len() - 2]) } else { (lo, hi) };
+                match e {
+                    0 if k == hi => max,
+                    0 if k == lo && d.len() >= 2 => -max,
+                    1 if k == hi => f64::INFINITY,
+                    1 if k == lo && d.len() >= 2 => f64::NEG_INFINITY,
+                    2 if k == hi => f64::INFINITY,
+                    2 if k == hi2 && d.len() >= 4 => max,
+                    2 if k == lo && d.len() >= 2 => f64::NEG_INFINITY,
+                    2 if k == lo2 && d.len() >= 4 => -max,
+                    _ => k as f64,
+                }
+            }
             _ => k as f64,
         })
         .collect()
@@ -362,34 +385,44 @@ fn nd_reversed(v: &[f64]) -> ndarray::Array1<f64> {
     ndarray::Array1::from(rev).slice_move(ndarray::s![..;-1])
 }
 
-/// the same calls as metric_event::<f64>, on strided ndarray vectors (ty "nd64")
+fn call_metric<V: smartcore::linalg::BaseVector<f64>>(name: &str, ya: &V, yb: &V, beta: f64) -> f64 {
+    match name {
+        "accuracy" => accuracy(ya, yb),
+        "precision" => precision(ya, yb),
+        "recall" => recall(ya, yb),
+        "fbeta" => f1(ya, yb, beta),
+        "auc" => roc_auc_score(ya, yb),
+        "mse" => mean_squared_error(ya, yb),
+        "mae" => mean_absolute_error(ya, yb),
+        "r2" => r2(ya, yb),
+        _ => panic!("unknown metric"),
+    }
+}
+
+/// the same calls as metric_event::<f64>, on the other vector back ends: owned ndarray
+/// vectors with a negative stride (ty "nd64") and nalgebra row vectors (ty "na64")
 #[allow(clippy::too_many_arguments)]
-fn metric_nd(run: i64, name: &str, a: &[i64], b: &[i64], scores: Option<&[f64]>, b1: i64, b2: i64, fam: &str) -> Option<Value> {
+fn metric_nd(run: i64, ty: &str, name: &str, a: &[i64], b: &[i64], scores: Option<&[f64]>, b1: i64, b2: i64, fam: &str) -> Option<Value> {
     let s = pick_s(num_bound(name, a, b, b1, b2))?;
     let fa: Vec<f64> = a.iter().map(|&v| v as f64).collect();
     let fb: Vec<f64> = match scores {
         Some(sv) => sv.to_vec(),
         None => b.iter().map(|&v| v as f64).collect(),
     };
-    let (ya, yb) = (nd_reversed(&fa), nd_reversed(&fb));
     let beta = b1 as f64 / b2 as f64;
-    let r = guard(|| match name {
-        "accuracy" => accuracy(&ya, &yb),
-        "precision" => precision(&ya, &yb),
-        "recall" => recall(&ya, &yb),
-        "fbeta" => f1(&ya, &yb, beta),
-        "auc" => roc_auc_score(&ya, &yb),
-        "mse" => mean_squared_error(&ya, &yb),
-        "mae" => mean_absolute_error(&ya, &yb),
-        "r2" => r2(&ya, &yb),
-        _ => panic!("unknown metric"),
-    });
+    let r = if ty == "nd64" {
+        let (ya, yb) = (nd_reversed(&fa), nd_reversed(&fb));
+        guard(|| call_metric(name, &ya, &yb, beta))
+    } else {
+        let (ya, yb) = (nalgebra::RowDVector::from_vec(fa), nalgebra::RowDVector::from_vec(fb));
+        guard(|| call_metric(name, &ya, &yb, beta))
+    };
     let q = Q::new(s);
     let (status, out) = match r {
         Ok(v) => ("ok", q.x(v)),
         Err(_) => ("panic", 0),
     };
-    Some(json!({"run": run, "ev": "Metric", "name": name, "ty": "nd64", "S": s, "U": 1, "e": 0, "off": 0, "fam": fam,
+    Some(json!({"run": run, "ev": "Metric", "name": name, "ty": ty, "S": s, "U": 1, "e": 0, "off": 0, "fam": fam,
                 "a": a, "b": b, "b1": b1, "b2": b2, "status": status, "fin": q.ok(), "out": out,
                 "hasExpect": false, "xnum": 0, "xden": 1}))
 }
@@ -549,7 +582,7 @@ fn main() {
             out = Out::create(arg(args, 2));
             for c in cases.iter() {
                 run = c["run"].as_i64().unwrap_or(0);
-                let ty = if c["ty"] == "f32" { 1 } else if c["ty"] == "nd64" { 2 } else { 0 };
+                let ty = if c["ty"] == "f32" { 1 } else if c["ty"] == "nd64" { 2 } else if c["ty"] == "na64" { 3 } else { 0 };
                 match c["ev"].as_str().unwrap_or("") {
                     "Metric" => {
                         let a = as_iv(&c["a"]);
@@ -764,6 +797,39 @@ fn main() {
                     emit!(metric(ty, run, name, &a, &b, None, 1, 1, u, e, off, "plain", None));
                 }
             }
+            // EXTREME score values: the top / bottom tie groups sit at +-T::MAX or +-infinity
+            // (a classifier emitting saturated scores); ties inside those groups, both classes
+            let nx = if th { 600 } else { 120 };
+            for i in 0..nx {
+                let ty = i % 2;
+                let n = r.gen_range(2..=24usize);
+                let a = rand_labels(&mut r, n, true);
+                let levels = [2i64, 3, 5, 8][(i / 2) % 4];
+                let ks: Vec<i64> = (0..n).map(|k| (r.gen_range(0..levels) + if r.gen_bool(0.4) { a[k] } else { 0 }).min(levels - 1) + 1).collect();
+                let e = (i / 8) as i32 % 3;
+                let sc = family_scores("extreme", e, ty, &ks);
+                let rk = dense_ranks(&sc);
+                run += 1;
+                emit!(metric(ty, run, "auc", &a, &rk, Some(&sc), 1, 1, 1, e, 0, "extreme", None));
+            }
+            // length mismatch on every vector back end (Vec f64/f32, strided ndarray, nalgebra),
+            // including the broadcastable shapes 1 vs n and n vs 1
+            for i in 0..32 {
+                let ty = i % 4;
+                let n = r.gen_range(2..=9usize);
+                let (la, lb) = match (i / 4) % 4 {
+                    0 => (1, n),
+                    1 => (n, 1),
+                    2 => (n, n + 1),
+                    _ => (n + 2, n),
+                };
+                let a = rand_labels(&mut r, la, false);
+                let b = rand_labels(&mut r, lb, false);
+                for name in ["accuracy", "precision", "recall", "fbeta", "mse", "mae", "r2"].iter() {
+                    run += 1;
+                    emit!(metric(ty, run, name, &a, &b, None, 1, 1, 1, 0, 0, "plain", None));
+                }
+            }
             // length mismatch: the pairwise metrics must reject
             for i in 0..40 {
                 let n = r.gen_range(1..=12usize);
@@ -883,15 +949,15 @@ fn main() {
                 let b = rand_labels(&mut r, n, true);
                 let name = CLASSIF[i % 4];
                 run += 1;
-                emit!(metric(2, run, name, &a, &b, None, 1, 1, 1, 0, 0, "plain", None));
+                emit!(metric(2 + i % 2, run, name, &a, &b, None, 1, 1, 1, 0, 0, "plain", None));
                 let sc: Vec<f64> = (0..n).map(|k| (r.gen_range(0..8) + 3 * a[k]) as f64 + k as f64 / 64.0).collect();
                 let rk = dense_ranks(&sc);
                 run += 1;
-                emit!(metric(2, run, "auc", &a, &rk, Some(&sc), 1, 1, 1, 0, 0, "plain", None));
+                emit!(metric(2 + (i / 2) % 2, run, "auc", &a, &rk, Some(&sc), 1, 1, 1, 0, 0, "plain", None));
                 let ya: Vec<i64> = (0..n as i64).map(|k| k + r.gen_range(-2..=2)).collect();
                 let yb: Vec<i64> = ya.iter().map(|&v| v + r.gen_range(-2..=2)).collect();
                 run += 1;
-                emit!(metric(2, run, ["mse", "mae", "r2"][i % 3], &ya, &yb, None, 1, 1, 1, 0, 0, "plain", None));
+                emit!(metric(2 + i % 2, run, ["mse", "mae", "r2"][i % 3], &ya, &yb, None, 1, 1, 1, 0, 0, "plain", None));
                 let la: Vec<i64> = (0..n).map(|k| (k * 3 / n) as i64).collect();        // ordered blocks
                 let lb: Vec<i64> = (0..n).map(|k| if r.gen_bool(0.8) { (k * 4 / n) as i64 - 7 } else { r.gen_range(0..4) - 7 }).collect();
                 let a2 = relabel(&mut r, &la);
